@@ -1,6 +1,7 @@
 (* All equivalence proofs between the translated Go functions (Gen/Translated.v) and the hand-written models.
    Each Props/Cxx.v requires only its own file; this one is the whole layer (make Xlate/Tie.vo). *)
-From TarsV Require Xlate.TarsRequestEquiv Xlate.CodecEquiv Xlate.ParseEquiv Xlate.BSWLEquiv Xlate.CheckActiveEquiv.
+From TarsV Require Xlate.TarsRequestEquiv Xlate.CodecEquiv Xlate.ParseEquiv Xlate.BSWLEquiv Xlate.CheckActiveEquiv
+  Xlate.ReaderEquiv Xlate.ReaderSliceEquiv Xlate.ReqIdEquiv.
 
 Print Assumptions TarsRequestEquiv.tr_TarsRequest_equiv.
 Print Assumptions CodecEquiv.tr_WriteHead_equiv.
@@ -13,3 +14,22 @@ Print Assumptions ParseEquiv.tr_Tars2endpoint_build_equiv.
 Print Assumptions BSWLEquiv.tr_BSWL_range_equiv.
 Print Assumptions BSWLEquiv.tr_BSWL_scale_equiv.
 Print Assumptions CheckActiveEquiv.tr_checkActive_equiv.
+Print Assumptions ReaderEquiv.tr_readHead_equiv.
+Print Assumptions ReaderEquiv.tr_unreadHead_equiv.
+Print Assumptions ReaderEquiv.skip_sim.
+Print Assumptions ReaderEquiv.skip_p_clean.
+Print Assumptions ReaderEquiv.tr_SkipToNoCheck_equiv.
+Print Assumptions ReaderEquiv.seek_p_clean.
+Print Assumptions ReaderEquiv.tr_ReadInt64_equiv.
+Print Assumptions ReaderEquiv.tr_ReadUint32_equiv.
+Print Assumptions ReaderEquiv.tr_ReadBool_equiv.
+Print Assumptions ReaderEquiv.tr_ReadString_equiv.
+Print Assumptions ReaderSliceEquiv.tr_ReadSliceUint8_equiv.
+Print Assumptions ReaderSliceEquiv.tr_ReadBytes_equiv.
+Print Assumptions ReaderEquiv.seek_p_fuel.
+Print Assumptions ReaderEquiv.tr_SkipToNoCheck_total.
+Print Assumptions ReaderEquiv.tr_ReadInt_total.
+Print Assumptions ReaderEquiv.tr_ReadString_total.
+Print Assumptions ReqIdEquiv.tr_genRequestID_equiv.
+Print Assumptions ReqIdEquiv.tr_genRequestID_loop_step.
+Print Assumptions ReaderEquiv.tr_SkipTo_equiv.
